@@ -63,6 +63,7 @@ INTERFACE
               translator cannot decide statically (None = no opinion => ExtractError).
   inline_lets substitute every local instead of emitting `let` (proofs are sometimes easier on `let`-free bodies).
 
+  emit_call_args  e.g. ('exp',): additionally emit `<lean_name>ExpArgs : List α`, the arguments of every `be.exp` call (same lets).
   extra_skipped  list of strings (e.g. ast.dump of code YOUR extractor discarded before calling: `try:` bodies, inlined helpers);
               hashed into the @skipped entry of the signature record.
   allow_decorators  decorator source texts that are acceptable (default none: a decorated function is an ExtractError).
@@ -336,6 +337,7 @@ class _Tr:
         self.modbind = {}         # module-level bindings {name: [kinds]} and import origins (set by translate_function)
         self.modimports = {}      # {local name: 'module' | 'module.attr'} of module-level imports
         self.local_names = set()  # names assigned somewhere in the function body (Python: local for the WHOLE body)
+        self.call_args = {}       # {python function name: [Lean text of each argument, in evaluation order]}  (emit_call_args)
         self.type_notes = []      # constructs whose meaning depends on the argument type (see module docstring)
         self.impure = []          # in-place updates that are not pure re-bindings (impure_augassigns)
         self.backend_src = []     # how the backend is obtained and which of its attributes are used (source text, first use)
@@ -548,7 +550,9 @@ class _Tr:
             lf, cls = self.funcs[f.kind]
             if cls:
                 self.classes.add(cls)
-            return Sc('(%s %s)' % (lf, self.num(n.args[0])))
+            argtext = self.num(n.args[0])
+            self.call_args.setdefault(lf, []).append((len(self.lets), argtext))
+            return Sc('(%s %s)' % (lf, argtext))
         self.err(n, 'call outside the subset')
 
     # ---- conditions ----------------------------------------------------------------------------
@@ -995,7 +999,8 @@ def _sig_record(f, src, tr, largs, fixed, objects, extra_skipped):
 def translate_function(src, tree, funcname, *, lean_name=None, const_env=None, params=None, objects=(),
                        units_mode=None, fixed=None, backend_names=('be', 'backend', 'math', 'np', 'numpy'),
                        extra_funcs=None, extra_calls=None, cond_hook=None, split_tuple=False,
-                       inline_lets=False, doc=None, extra_skipped=None, allow_decorators=(), defaults_may_use_params=False):
+                       inline_lets=False, doc=None, extra_skipped=None, allow_decorators=(), defaults_may_use_params=False,
+                       emit_call_args=()):
     f = find_unique_def(tree, funcname)
     if not isinstance(f, ast.FunctionDef):
         raise ExtractError('%s is not a function' % funcname)
@@ -1143,6 +1148,16 @@ def translate_function(src, tree, funcname, *, lean_name=None, const_env=None, p
         out.append('/-- the messages `%s(..., warn=True)` passes to warnings.warn, in order -/\ndef %s %s : List String :=\n%s'
                    % (funcname, msgs_name, whead,
                       body(tr.lets[:nl], ' ++ '.join('(if %s then [%s] else [])' % (c, lean_str(m)) for _, c, m in tr.warns))))
+    for pyfn in emit_call_args:
+        # `<lean_name>ExpArgs : List α` = every argument the function passes to be.exp (same let-chain), so that theorems can say
+        # e.g. "no exponential grows on the documented domain" (float overflow is invisible to the value theorems)
+        lf = tr.funcs[pyfn][0]
+        items = tr.call_args.get(lf, [])
+        an = '%s%sArgs' % (lean_name, pyfn[:1].upper() + pyfn[1:])
+        acls = ARITH + [c for c in classes if c not in ARITH]
+        out.append('/-- the arguments of every `%s` call of `%s`, in evaluation order -/\ndef %s %s : List α :=\n%s'
+                   % (pyfn, funcname, an, head, body(tr.lets[:max([k for k, _ in items] + [0])],
+                                                      '[' + ', '.join(strip_outer(t_) for _, t_ in items) + ']')))
     if tr.type_notes:
         out.append('-- TYPE-SENSITIVE constructs of `%s` (the Lean text has the SCALAR FLOAT meaning; see pyfn2lean "TYPE-SENSITIVE"):\n%s\n'
                    % (funcname, '\n'.join('--   ' + x.replace('\n', ' ') for x in tr.type_notes)))
